@@ -233,6 +233,15 @@ func c17StreamOne(c *mc.Ctx, k c17Stream, enc []byte) {
 	pi := mc.Try(func() { err = c17Methods[k.Method](br, k.Type) })
 	br.Recycle()
 	dr.Release(nil)
+	// the failure is kept by the caller while the recycled reader object serves another stream, which fails with a
+	// DIFFERENT source error: the first failure must still match its own cause below
+	mc.Try(func() {
+		dr2 := bufiox.NewDefaultReader(NewEnvReader(nil, EnvCfg{Err: (k.Env.Err + 1) % len(termErrs)}))
+		br2 := thrift.NewBufferReader(dr2)
+		br2.ReadI32()
+		br2.Recycle()
+		dr2.Release(nil)
+	})
 	bad := func(class, format string, a ...interface{}) {
 		kk := k
 		kk.ValueHex = hex.EncodeToString(enc)
